@@ -40,19 +40,19 @@ type WAct struct {
 }
 
 type WScn struct {
-	Kind       string
-	Seed       int64
-	Phone      string
-	PreJoin    bool // join (one heartbeat) before the recording starts
-	RecordJoin bool // the first heartbeat is part of the recorded history
-	PreAdvance int  // heartbeats sent and answered before the recording (advances the platform serial)
-	Calls      []*WCall
-	Acts       []WAct
-	Beats      []time.Duration // other traffic at these times (heartbeat / location report alternating)
-	Burst       int            // answer the held commands in ONE socket write once this many command frames arrived
-	BurstDup    int            // ... each response this many times
-	CloseFrames int            // close after this many command frames were received and handled (0 = no)
-	CloseTime   time.Duration  // close at this time (0 = no)
+	Kind        string
+	Seed        int64
+	Phone       string
+	PreJoin     bool // join (one heartbeat) before the recording starts
+	RecordJoin  bool // the first heartbeat is part of the recorded history
+	PreAdvance  int  // heartbeats sent and answered before the recording (advances the platform serial)
+	Calls       []*WCall
+	Acts        []WAct
+	Beats       []time.Duration // other traffic at these times (heartbeat / location report alternating)
+	Burst       int             // answer the held commands in ONE socket write once this many command frames arrived
+	BurstDup    int             // ... each response this many times
+	CloseFrames int             // close after this many command frames were received and handled (0 = no)
+	CloseTime   time.Duration   // close at this time (0 = no)
 	RST         bool
 	Slack       time.Duration
 }
@@ -97,15 +97,15 @@ func locBody() []byte { // 28-byte basic location information, 2024-10-01 12:00:
 const farFuture = int64(1) << 40
 
 type wrun struct {
-	s    *Srv
-	sc   *WScn
-	t    *Term
-	t0   time.Time
-	mu   sync.Mutex // guards everything below and serialises the terminal's writes
-	T, F []string
-	cmdN int
-	closed bool
-	frames []PFrame // every platform frame received during the recording
+	s        *Srv
+	sc       *WScn
+	t        *Term
+	t0       time.Time
+	mu       sync.Mutex // guards everything below and serialises the terminal's writes
+	T, F     []string
+	cmdN     int
+	closed   bool
+	frames   []PFrame           // every platform frame received during the recording
 	sentResp map[uint16][]int64 // echo -> times a parsable response echoing it was written
 	beatTags []uint16
 	replied  []uint16 // tags of the 0x8001 replies received, in order
